@@ -18,6 +18,7 @@ import (
 type canonStmt struct {
 	Text string
 	Pos  token.Pos
+	Ctx  []string // texts of the enclosing control headers, outermost first ("else of <h>" for an else branch)
 }
 
 type canoniser struct {
@@ -27,6 +28,7 @@ type canoniser struct {
 	file   *token.File
 	locals map[types.Object]int
 	out    []canonStmt
+	stack  []string
 	// typeAlias maps "pkgpath.TypeName" of the copy's own types to a neutral name shared with the reference
 	neutral map[string]bool
 }
@@ -70,8 +72,11 @@ func (c *canoniser) local(o types.Object) int {
 }
 
 func (c *canoniser) emit(text string, pos token.Pos) {
-	c.out = append(c.out, canonStmt{text, pos})
+	c.out = append(c.out, canonStmt{text, pos, append([]string{}, c.stack...)})
 }
+
+func (c *canoniser) push(h string) { c.stack = append(c.stack, h) }
+func (c *canoniser) pop()          { c.stack = c.stack[:len(c.stack)-1] }
 
 func (c *canoniser) block(list []ast.Stmt) {
 	for _, s := range list {
@@ -86,36 +91,50 @@ func (c *canoniser) stmt(s ast.Stmt) {
 	case *ast.IfStmt:
 		h := c.tokens(x, x.Pos(), x.Body.Lbrace+1)
 		c.emit(h, x.Pos())
+		c.push(h)
 		c.block(x.Body.List)
+		c.pop()
 		if x.Else != nil {
 			c.emit("} else // "+h, x.Else.Pos())
+			c.push("else of " + h)
 			c.stmt(x.Else)
+			c.pop()
 		}
 		c.emit("} // "+h, x.End())
 	case *ast.ForStmt:
 		h := c.tokens(x, x.Pos(), x.Body.Lbrace+1)
 		c.emit(h, x.Pos())
+		c.push(h)
 		c.block(x.Body.List)
+		c.pop()
 		c.emit("} // "+h, x.End())
 	case *ast.RangeStmt:
 		h := c.tokens(x, x.Pos(), x.Body.Lbrace+1)
 		c.emit(h, x.Pos())
+		c.push(h)
 		c.block(x.Body.List)
+		c.pop()
 		c.emit("} // "+h, x.End())
 	case *ast.SwitchStmt:
 		h := c.tokens(x, x.Pos(), x.Body.Lbrace+1)
 		c.emit(h, x.Pos())
+		c.push(h)
 		c.block(x.Body.List)
+		c.pop()
 		c.emit("} // "+h, x.End())
 	case *ast.TypeSwitchStmt:
 		h := c.tokens(x, x.Pos(), x.Body.Lbrace+1)
 		c.emit(h, x.Pos())
+		c.push(h)
 		c.block(x.Body.List)
+		c.pop()
 		c.emit("} // "+h, x.End())
 	case *ast.CaseClause:
 		h := c.tokens(x, x.Pos(), x.Colon+1)
 		c.emit(h, x.Pos())
+		c.push(h)
 		c.block(x.Body)
+		c.pop()
 	case *ast.LabeledStmt:
 		c.stmt(x.Stmt)
 	default:
